@@ -180,6 +180,9 @@ func (s *Service) handler(ctx context.Context, p p2p.Peer, stream p2p.Stream) (e
 	if err != nil {
 		return err
 	}
+	if signedCheque == nil {
+		return fmt.Errorf("cheque from peer %v: empty cheque", p.Address)
+	}
 
 	return s.traffic.ReceiveCheque(ctx, p.Address, signedCheque)
 }
